@@ -4,6 +4,7 @@ import (
 	"encoding/json"
 	"flag"
 	"fmt"
+	"golang.org/x/tools/go/ssa"
 	"os"
 	"path/filepath"
 	"sort"
@@ -139,6 +140,7 @@ func main() {
 }
 
 func runCheck(repo, prop, tier string, keep bool, only string, verbose bool) int {
+	activeProp = prop
 	start := time.Now()
 	seed := int64(0)
 	if s := os.Getenv("VERIF_SEED"); s != "" {
@@ -238,6 +240,22 @@ func runCheck(repo, prop, tier string, keep bool, only string, verbose bool) int
 			rep.Abstracted = true
 			abstracted = append(abstracted, j.key)
 			if j.c.Options["sweep"] != "true" {
+				// frame-only re-run: the function no longer fits its loop
+				// invariants (it was restructured). Its frame clause does not
+				// depend on them: re-run with the loops abstracted by "true" and
+				// keep only the obligations that every write stays inside the
+				// modifies clause. The function stays "not proved".
+				if fo := frameOnlyRerun(P, fn, j.c); fo != nil {
+					for _, o := range fo {
+						if devObl != "" && !strings.Contains(o.Name, devObl) {
+							continue
+						}
+						if obligationInProperty(o, j.c, prop) {
+							all = append(all, o)
+						}
+					}
+					rep.Notes = append(rep.Notes, fmt.Sprintf("frame-only re-run without loop invariants: %d frame obligations kept", len(fo)))
+				}
 				continue
 			}
 			// sweep: lock-discipline obligations found before the function
@@ -454,24 +472,24 @@ func runCheck(repo, prop, tier string, keep bool, only string, verbose bool) int
 		"seed":        seed,
 		"level":       "proof",
 		"coverage": map[string]interface{}{
-			"obligations":               nObl,
-			"discharged":                nDis,
-			"checker_cmd":               fmt.Sprintf("bin/govc check %s %s", prop, tier),
-			"trusted_base":              tb,
-			"samples":                   samples,
-			"by_solver":                 bySolver,
-			"solver_time_s":             round3(solverTime),
-			"load_time_s":               round3(loadS),
-			"functions_under_contract":  fnames,
-			"function_reports":          reports,
-			"abstracted_functions":      abstracted,
-			"binding_lost":              bindingLost,
-			"known_finding_obligations": knownNames,
-			"swept_without_contract":    sweptNames,
-			"canaries_checked":          nCanary,
+			"obligations":                 nObl,
+			"discharged":                  nDis,
+			"checker_cmd":                 fmt.Sprintf("bin/govc check %s %s", prop, tier),
+			"trusted_base":                tb,
+			"samples":                     samples,
+			"by_solver":                   bySolver,
+			"solver_time_s":               round3(solverTime),
+			"load_time_s":                 round3(loadS),
+			"functions_under_contract":    fnames,
+			"function_reports":            reports,
+			"abstracted_functions":        abstracted,
+			"binding_lost":                bindingLost,
+			"known_finding_obligations":   knownNames,
+			"swept_without_contract":      sweptNames,
+			"canaries_checked":            nCanary,
 			"canaries_failed_as_required": nCanary - len(brokenCanaries),
-			"per_obligation_timeout_s":  timeout,
-			"obligation_floor":          floor,
+			"per_obligation_timeout_s":    timeout,
+			"obligation_floor":            floor,
 		},
 		"assumptions": assumptions,
 		"wall_s":      round3(wall),
@@ -555,6 +573,56 @@ func propertyAssumptions(P *Program, prop string) []string {
 			if tag == "*" || hasProp(strings.Split(tag, ","), prop) {
 				out = append(out, strings.TrimSpace(a[i+1:]))
 			}
+		}
+	}
+	return out
+}
+
+// frameOnlyRerun verifies fn against a copy of its contract without loop
+// invariants and returns only the frame obligations (nil if the function is
+// outside the subset even then).
+func frameOnlyRerun(P *Program, fn *ssa.Function, c *FuncContract) (out []*Obligation) {
+	cc := *c
+	cc.Loops = nil
+	cc.Options = map[string]string{}
+	for k, v := range c.Options {
+		cc.Options[k] = v
+	}
+	cc.Options["frame-only"] = "true"
+	y := NewExec(P, fn, &cc)
+	ok := true
+	func() {
+		defer func() {
+			if r := recover(); r != nil {
+				if _, isU := r.(unsupportedErr); isU {
+					ok = false
+					return
+				}
+				panic(r)
+			}
+		}()
+		y.Verify()
+	}()
+	if !ok || y.abstract {
+		return nil
+	}
+	for _, o := range y.obls {
+		if o.Canary {
+			continue
+		}
+		if o.Kind == "frame" || o.Kind == "store-in-frame" || o.Kind == "call-in-frame" {
+			// only fields of declared struct types: slices, cells and maps built
+			// by the function itself are fresh, but without loop invariants
+			// that is not provable
+			d := o.Detail
+			if i := strings.LastIndex(d, ": "); i >= 0 {
+				d = d[i+2:]
+			}
+			if strings.HasPrefix(d, "elems!") || strings.HasPrefix(d, "cell!") || strings.HasPrefix(d, "map") || strings.HasPrefix(d, "ghost") || strings.Contains(d, "modifies all of") {
+				continue
+			}
+			o.Name += " [frame-only re-run: the loop invariants no longer bind]"
+			out = append(out, o)
 		}
 	}
 	return out
